@@ -15,10 +15,10 @@ var bufferPool = sync.Pool{
 }
 
 func containsInterpolation(input string) bool {
-	open := strings.Count(input, "{{")
-	close := strings.Count(input, "}}")
-
-	return open == close && open > 0
+	// an opener with a closer somewhere behind it: a stray "}}" (or "{{") elsewhere in
+	// the text does not switch interpolation off for the expressions that are complete
+	open := strings.Index(input, "{{")
+	return open >= 0 && strings.Contains(input[open+2:], "}}")
 }
 
 // interpolateToWriter writes input to w with every {{ expression }} replaced by its value.
